@@ -136,6 +136,7 @@ func RunStall(s Stall, scale float64) *Trace {
 		}
 	}
 	hs.Close()
+	tr.NotQuiet = hs.NotQuiet
 	tr.Calls = hs.DB.Calls()
 	tr.Events = hs.DB.Events()
 	tr.Subs = hs.Rec.Subs()
